@@ -40,7 +40,7 @@ def check_shapes(ctx, cuqi, rng):
                 skind = rng.choice(["default", "plain", "t2"])
                 cases.append(dict(n=n, method=method, oc=oc, sc=sc, icc=icc, op=op, src=src, ic=icv, ts=ts, skind=skind, A=A, b=b, s0=s0, icfull=ic))
                 lines.append(f"timeb {method} {base.make_solver(skind)[2]} {qv(ts)} {otok} {stok} {itok}")
-    outs = ctx.lean.drive(lines)
+    outs = yield lines
     for cs, out, line in zip(cases, outs, lines):
         if out == "bad-op":
             raise RuntimeError("C18 shapes driver line not understood: " + line[:200])
